@@ -165,12 +165,27 @@ class NestGen:
             return self.defblk(depth + 1, ctx)
         return self.mark("m")
 
-    def block(self, depth, ctx, as_value=False):
+    def block(self, depth, ctx, as_value=False, force=None):
         rng = self.rng
         self.nblk += 1
         bid = self.nblk
-        body = [["mark", f"E{bid}"]]
-        body += self.stmts(depth, ctx, rng.randrange(1, 4))
+        shape = rng.random()
+        if shape < 0.12 and depth < 4 and not as_value:
+            # a block whose only statement is another block (the shapes a
+            # parser-level simplification would be tempted to merge)
+            inner_force = None
+            if force is None and rng.random() < 0.6:
+                if rng.random() < 0.5:
+                    inner_force, force = ("fin-only", "catch-only")
+                else:
+                    inner_force, force = ("catch-only", "fin-only")
+            body = [self.block(depth + 1, ctx, force=inner_force)]
+        elif shape < 0.22:
+            body = self.stmts(depth, ctx, rng.randrange(1, 4)) or \
+                [self.mark("m")]
+        else:
+            body = [["mark", f"E{bid}"]]
+            body += self.stmts(depth, ctx, rng.randrange(1, 4))
         raised = None
         for s in body:
             if s[0] == "err":
@@ -186,7 +201,12 @@ class NestGen:
         if as_value:
             body.append(["expr", ["lit", self.value()]])
         catches = []
-        for i in range(rng.choice([0, 1, 1, 2, 3])):
+        ncatch = rng.choice([0, 1, 1, 2, 3])
+        if force == "fin-only":
+            ncatch = 0
+        elif force == "catch-only":
+            ncatch = max(1, ncatch)
+        for i in range(ncatch):
             if rng.random() < 0.2:
                 cv = None
             else:
@@ -211,7 +231,9 @@ class NestGen:
                 h.append(["expr", ["lit", self.value()]])
             catches.append([cv, h])
         fin = None
-        if rng.random() < 0.65:
+        if force != "catch-only" and (
+                rng.random() < 0.65 or force == "fin-only"
+                or (shape < 0.12 and not catches)):
             fin = [["mark", f"F{bid}"]]
             rr = rng.random()
             cfin = dict(ctx, nocontrol=True, nolp=True)
